@@ -52,4 +52,17 @@ def encAtom : Yaql.Strings.Atom → Json
   | .int i => jo [("i", encInt i)]
   | .str s => jo [("s", encStr s)]
 
+/-! closed families of total callables the differential instantiates callable parameters with
+(harness/srcgen_targets.py `FN_FAMILIES` holds the python twins, same order) -/
+
+/-- predicates on values -/
+def decPredV (j : Json) : Yaql.Value → Bool :=
+  match decNat j with
+  | 0 => fun _ => false
+  | 1 => fun _ => true
+  | 2 => fun v => match v with | .int _ => true | _ => false
+  | 3 => fun v => match v with | .int i => decide (i > 1) | _ => false
+  | 4 => fun v => match v with | .null => true | _ => false
+  | _ => fun v => match v with | .str _ => true | _ => false
+
 end Yaql.Drv.SrcCodec
